@@ -17,7 +17,9 @@ LEVEL_TEXT = ("A real Directory (with its DirectoryComputation) and 3 real Disco
               "final drain the oracle compares, for every agent A and every item A is still unambiguously subscribed "
               "to according to the model, A's view (agent_address / computation_agent / replica_agents) with the "
               "directory's data, and requires the last callback event of every live callback to match the final state. "
-              "Sampling of histories x delivery orders.")
+              "The same comparison runs at every quiescent point "
+              "inside a history. Agent names come from generated sets that include prefix pairs (a1 / a10). Sampling of "
+              "histories x delivery orders.")
 LEVEL_NOTE = ("Trusted: the subscription model in this file and SimNet's FIFO channels. The model is deliberately "
               "conservative: an item counts as 'still subscribed' only when every reading of the API agrees (mixed "
               "callback / no-callback subscriptions followed by a partial unsubscribe, and anything touched by an agent "
